@@ -266,6 +266,9 @@ impl Zone {
         }
 
         if other.soa.is_some() {
+            // the SOA record of the zone being superseded must not
+            // linger at the apex next to the new one
+            self.records.this.remove(&RecordType::SOA);
             self.soa = other.soa;
         }
 
